@@ -1,7 +1,15 @@
 ---------------------------------- MODULE MC ----------------------------------
-(* Exhaustive model checking of BackupRestore: the channel order (a sequence cannot be
-   written in a TLC configuration file) and nothing else. *)
+(* Exhaustive model checking of BackupRestore: the channel order and the instance records
+   (neither can be written in a TLC configuration file) and nothing else.  For the message
+   kind the API variant does not change the model (both install the same pages), so one is
+   enough there; for the metadata kind "bytes" is the one-batch import. *)
 EXTENDS BackupRestore
 MCChanSeq1 == << "c1" >>
 MCChanSeq2 == << "c1", "c2" >>
+C(k, a, p) == [kind |-> k, api |-> a, ps |-> p]
+MCCfgsSmall == {C("msg", "reader", 1), C("meta", "reader", 1), C("meta", "bytes", 1)}
+MCCfgsOne   == {C("msg", "reader", 1), C("msg", "reader", 2), C("meta", "reader", 2)}
+MCCfgsMsg   == {C("msg", "reader", 1), C("msg", "reader", 2)}
+MCCfgsFull  == {C("msg", "reader", 1), C("msg", "reader", 2), C("msg", "bytes", 4),
+                C("meta", "reader", 1), C("meta", "reader", 2), C("meta", "bytes", 1)}
 ===============================================================================
